@@ -54,6 +54,10 @@ CLAIMED = {
          'for every (source, destination, rounding tag, form) site the destination rep must be the multiple of the destination resolution the mode selects from the exact source value; float, double and long double sources are decoded bit-exactly and never touched by floating-point arithmetic in the oracle; conversions that lose no digits must be exact under every mode',
          'six listed known findings, each an operand-defined cause region (bias sum not representable in the float type, negative float -> scaled truncation, bias overflow in the source rep, ...); 18 conversion forms that do not compile on the pinned tree are listed in uncompilable_allow.json; static_number -> static_number chains are left to C11',
          'DESIGN.md section 5 C09'),
+ 'C12': ('differential execution: exhaustive 2^16 operand pairs for every 8-bit kernel (33 operators x 7 wrapper nestings) + rapidcheck boundary/pattern/random operands for 16/32/64-bit, vs the built-in expression; mixed-exponent and documentation kernels vs hand-written shift-and-operate code',
+         'value and decltype of unwrap(W(a) op W(b)) against a op b for every operator, nesting and rep width, also with a built-in operand on either side; compound assignment against T(x op y); ++/-- against +-1; scaled_integer kernels with different exponents (+ - & | ^, compound forms, comparisons) and the four documentation kernels against integer reference code; inputs for which the built-in expression is undefined are discarded on exact values',
+         'equivalence by execution, not on compiled IR, and not all 2^64 pairs of 32-bit operands (stated in DESIGN section 6); ++/-- on rounding_integer<R, native_rounding_tag> nestings are ill-formed on the pinned tree and are excluded from those kernels',
+         'DESIGN.md section 5 C12'),
 }
 
 def main():
